@@ -118,6 +118,8 @@ def slotted(  # noqa: C901
         # Erase __dict__ and __weakref__
         cls_dict.pop("__dict__", None)
         cls_dict.pop("__weakref__", None)
+        # The slot names `copyreg` may have cached for the original class are stale.
+        cls_dict.pop("__slotnames__", None)
 
         # Pickle fix for frozen dataclass as mentioned in https://bugs.python.org/issue36424
         # Use only if __getstate__ and __setstate__ are not declared and frozen=True
